@@ -185,6 +185,23 @@ JBuilt(e, errExpected, ns, ids, unspec) ==
   ELSE (IF unspec THEN {r \in SnapOf(ns, e.dst, e.st) : r # "vector"} ELSE SnapOf(ns, e.dst, e.st))
        \cup Mutated(ns, ids, e.after)
 
+\* DivideShifted (self-contained, no state): a of size n in canonical form, moved to the coset s<w_N> of a domain built with
+\* its own shift s (the library's default when none was asked for), divided by X^n - 1.  Contract of DivideByXMinusOne:
+\* R canonical regular with R(x) (x^n - 1) = a(x) on that coset, i.e.  R (X^n - 1) = a  mod (X^N - s^N).
+\* All words are raw; the identity is linear in (a, R), so it holds on the raw words as well.
+JDivShifted(e) ==
+  IF Panicked(e) THEN {"panic"}
+  ELSE IF Has(e, "err") THEN {"error"}
+  ELSE
+  LET n == e.n  N == e.N  R == e.out  a == e.a
+      s == IF e.s1 = Zero THEN FG ELSE e.s1
+      c == FPowInt(FQ, s, N)
+      lhs(k) == FAdd(FQ, FSub(FQ, IF k >= n THEN R[k-n+1] ELSE Zero, R[k+1]),
+                         IF k < n THEN FMul(FQ, c, R[k+N-n+1]) ELSE Zero)
+  IN IF Len(R) # N \/ e.basis # CANONICAL \/ e.layout # REGULAR THEN {"form"}
+     ELSE IF \E i \in 1..N : ~Canon(R[i]) THEN {"noncanonical"}
+     ELSE IF \A k \in 0..(N-1) : lhs(k) = (IF k < n THEN a[k+1] ELSE Zero) THEN {} ELSE {"value:divide-shifted-domain"}
+
 Judge(e, ns) ==
   IF ~Known(e) THEN {"harness:unknown-handle"}
   ELSE IF ~Enabled(e) THEN {"harness:not-enabled"}
@@ -218,7 +235,8 @@ Judge(e, ns) ==
          ELSE IF Has(e, "err") THEN {"error"}
          ELSE SnapOf(ns, e.dst, e.st) \cup (IF e.n # e.total THEN {"count"} ELSE {})
     [] e.op = "Expr" -> JBuilt(e, ExprErr(e), ns, e.xs, FALSE)
-    [] e.op = "Divide" -> JBuilt(e, DivideErr(e), ns, <<e.id>>, FALSE) 
+    [] e.op = "Divide" -> JBuilt(e, DivideErr(e), ns, <<e.id>>, FALSE)
+    [] e.op = "DivideShifted" -> JDivShifted(e)
     [] e.op = "RatioShuffled" ->
          IF Panicked(e) /\ Len(e.num) = 1 /\ Len(e.den) = 1 THEN {"panic:ratio-single-pair"}
          ELSE JBuilt(e, ShufErr(e), ns, ShufIds(e), IF ShufErr(e) THEN FALSE ELSE ShufBuilt(e).unspec)
